@@ -152,7 +152,9 @@ class ElfGen(object):
             ps = r.choice(ODD_PAGE_SIZES) if r.random() < 0.08 else r.choice(PAGE_SIZES)
         unit = max(ps, 16)
         nbody = max(r.randrange(2, 8) * unit + r.randrange(0, unit), 640 + r.randrange(0, 64))   # room for the header tables
-        segs, kinds = self.layout(ps, x64, top, nbody)
+        segs, kinds = self.layout(ps, x64, top if x64 else min(top, 0x7FFFFFFF), nbody)
+        if not x64 and any(p[k] >= (1 << 32) for p in segs for k in ("vaddr", "offset", "filesz", "memsz")):
+            return self.image(target, ps, dynamic)
         if dynamic is None:
             dynamic = r.random() < 0.35
         o = ">" if be else "<"
@@ -223,7 +225,7 @@ class ElfGen(object):
                     ents += struct.pack(o + W + W + (W if rela else ""), a, info, *([5] if rela else []))
                     if a:
                         relocs.append((a, names[sym].decode()))
-                secs.append((b".rela.plt" if rela else b".rel.plt", 4 if rela else 9, ents,
+                secs.append(((b".rela" if rela else b".rel") + (b".plt", b".dyn")[sn], 4 if rela else 9, ents,
                              (3 if rela else 2) * (8 if x64 else 4)))
             shstr = b"\0"
             sh = [dict(name=0, type=0, offset=0, size=0)]
@@ -358,7 +360,7 @@ def pe_image(r, ck=None):
                     iat_slots.append((base + rva + iat_off + i * wsz, "%s::%s" % (dll.decode(), sym)))
             raw[:len(img)] = img
             imp_dir = (rva, 20 * (ndll + 1))
-        ch = 0x60000020 if n == 0 else r.choice([0xC0000040, 0x40000040, 0x800 if r.random() < 0.15 else 0xC0000080])
+        ch = 0x60000020 if n == 0 else r.choice([0xC0000040, 0x40000040, 0x800 if r.random() < 0.06 else 0xC0000080])
         secs.append(dict(name=(".s%d" % n).encode().ljust(8, b"\0"), vsize=vsize, rva=rva, rawsize=rawsize,
                          rawptr=fptr if rawsize else r.choice([0, fptr]), ch=ch))
         raws.append(bytes(raw))
@@ -414,7 +416,7 @@ def macho_image(r, ck=None):
     cmds = []
     use_main = r.random() < 0.6
     ncmds_extra = 1
-    hdr_guess = 32 + 72 * (nseg + 1) + 200
+    hdr_guess = 32 + 72 * (nseg + 1) + 200 + 24 + 56 + 32
     fileoff = 0
     filedata = bytearray(r.getrandbits(8) for _ in range(hdr_guess))
     for n in range(nseg):
@@ -435,6 +437,15 @@ def macho_image(r, ck=None):
     lc += struct.pack("<II16sQQQQIIII", 0x19, 72, b"__PAGEZERO".ljust(16, b"\0"), 0, 0x100000000, 0, 0, 0, 0, 0, 0)
     for s in segs:
         lc += struct.pack("<II16sQQQQIIII", 0x19, 72, s["name"], s["vmaddr"], s["vmsize"], s["fileoff"], s["filesize"], 7, 5, 0, 0)
+    static = r.random() < 0.1          # no LC_LOAD_DYLIB: MachO.dynamic is never set, the osx loader raises
+    nlc = nseg + 2
+    if not static:
+        lc += struct.pack("<IIIIII", 0x2, 24, 0, 0, 0, 0)                                  # LC_SYMTAB, no symbols
+        lc += struct.pack("<IIIIII", 0xC, 24 + 32, 24, 2, 0x10000, 0x10000) + b"/usr/lib/libSystem.B.dylib".ljust(32, b"\0")
+        nlc += 2
+        if r.random() < 0.7:
+            lc += struct.pack("<III", 0xE, 12 + 20, 12) + b"/usr/lib/dyld".ljust(20, b"\0")  # LC_LOAD_DYLINKER
+            nlc += 1
     entryoff = r.randrange(0, segs[0]["filesize"])
     stack = None
     if use_main:
@@ -442,18 +453,18 @@ def macho_image(r, ck=None):
         lc += struct.pack("<IIQQ", 0x80000028, 24, entryoff, stacksize)
         entry = segs[0]["vmaddr"] + entryoff
         stack = stacksize or None
-        n_cmds = nseg + 2
+        n_cmds = nlc
     else:
         regs = [0] * 21
         regs[16] = segs[0]["vmaddr"] + entryoff
         lc += struct.pack("<IIII", 0x5, 16 + 21 * 8, 4, 42) + struct.pack("<21Q", *regs)
         entry = regs[16]
         stack = "2pages"
-        n_cmds = nseg + 2
+        n_cmds = nlc
     head = struct.pack("<IIIIIIII", 0xfeedfacf, 0x01000007, 3, 2, n_cmds, len(lc), 0x200085, 0) + lc
     assert len(head) <= hdr_guess
     filedata[:len(head)] = head
-    meta = dict(format="macho", nseg=nseg, entry=entry, stack=stack, main=use_main)
+    meta = dict(format="macho", nseg=nseg, entry=entry, stack=stack, main=use_main, static=static)
     if ck is not None:
         ck.count("macho.%s" % ("LC_MAIN" if use_main else "LC_UNIXTHREAD"))
         for s in segs:
